@@ -39,6 +39,7 @@ class Contract:
         self.ensures = list(g('ensures', []))
         self.raises = dict(g('raises', {}))
         self.may_raise = list(g('may_raise', []))
+        self.own_raises = dict(g('own_raises', {}))   # {Exc: cond}: raised by the function's own code (not a contracted callee) iff cond
         self.returns = g('returns', None)
         self.modifies = list(g('modifies', []))
         self.loops = dict(g('loops', {}))
